@@ -17,6 +17,7 @@ EXPLANATION = (
     "calls a locked method on self; in write() the appends to the parallel lists happen exactly once each on "
     "every path with nothing that can raise between them.  File output: one write call per line and no "
     "mutable state in FileDestination (C10.line)."
+    "  The threaded writer's own rules (C19: unregister before the stop marker is queued, reader leaves only on the marker, a destination failure is contained inside the loop, one delivery per dequeued item) are part of this property as well."
 )
 RULE = ("obligation = (method, shared field) pairs, the decorator proof, the lock creation, the parallel-list "
         "appends; non-trivial = the method's accesses / CFG paths were examined")
